@@ -36,6 +36,8 @@ const (
 	kOIDVal // a parsed object id (20 bytes)
 	kErr
 	kStruct
+	kPair  // a struct of two strings (ConfigEntry)
+	kPairs // a slice of them
 )
 
 type val struct {
@@ -54,6 +56,8 @@ type env struct {
 	want   []kind
 	aux    *strings.Builder // auxiliary loop definitions, emitted before the function
 	nloops int
+	// inside a loop body: what `continue` means
+	loopContinue func(ind string) string
 }
 
 func bytesLit(s string) string {
@@ -135,7 +139,30 @@ func (e *env) expr(x ast.Expr) val {
 			}
 		}
 		die(t.Pos(), "unsupported selector")
+	case *ast.CompositeLit:
+		if len(t.Elts) == 2 {
+			var vs []val
+			for _, el := range t.Elts {
+				kv, ok := el.(*ast.KeyValueExpr)
+				if !ok {
+					die(el.Pos(), "positional struct literal")
+				}
+				vs = append(vs, e.expr(kv.Value))
+			}
+			if vs[0].k == kStr && vs[1].k == kStr {
+				return bind2(vs[0], vs[1], func(x, y string) string { return "(" + x + ", " + y + ")" }, kPair)
+			}
+		}
+		die(t.Pos(), "unsupported composite literal")
 	case *ast.UnaryExpr:
+		if t.Op == token.AND { // &config: the accumulated entries are what the caller reads
+			if id, ok := t.X.(*ast.Ident); ok {
+				key := id.Name + ".Entries"
+				if k, ok := e.vars[key]; ok {
+					return val{e.name[key], true, k}
+				}
+			}
+		}
 		if t.Op == token.SUB {
 			return bind1(e.expr(t.X), func(a string) string { return "(-" + a + ")" }, kInt)
 		}
@@ -148,6 +175,20 @@ func (e *env) expr(x ast.Expr) val {
 		}
 		if id, ok := t.Fun.(*ast.Ident); ok && len(t.Args) == 1 && (id.Name == "ObjectType" || id.Name == "string") {
 			return e.expr(t.Args[0]) // a conversion between string types
+		}
+		if sel, ok := t.Fun.(*ast.SelectorExpr); ok && len(t.Args) == 2 && exprName(sel.X) == "bytes" && sel.Sel.Name == "IndexByte" {
+			a, b := e.expr(t.Args[0]), e.expr(t.Args[1])
+			if b.k == kInt { // an untyped constant such as 0
+				b = val{"(" + strings.TrimSuffix(strings.TrimPrefix(b.code, "("), " : Int)") + " : UInt8)", true, kByte}
+			}
+			return bind2(a, b, func(x, y string) string { return "(Go.indexByteI " + x + " " + y + ")" }, kInt)
+		}
+		if id, ok := t.Fun.(*ast.Ident); ok && id.Name == "append" && len(t.Args) == 2 {
+			a, b := e.expr(t.Args[0]), e.expr(t.Args[1])
+			if a.k != kPairs || b.k != kPair {
+				die(t.Pos(), "append of unsupported kinds")
+			}
+			return bind2(a, b, func(x, y string) string { return "(" + x + " ++ [" + y + "])" }, kPairs)
 		}
 		if sel, ok := t.Fun.(*ast.SelectorExpr); ok && len(t.Args) == 1 {
 			if pk, ok := sel.X.(*ast.Ident); ok && pk.Name == "counts" {
@@ -279,6 +320,11 @@ func (e *env) ret(rs []ast.Expr, want []kind) string {
 			return ".err \"error\""
 		}
 		rs, want = rs[:len(rs)-1], want[:len(want)-1]
+		if len(rs) == 1 && want[0] == kStruct {
+			if _, isLit := rs[0].(*ast.CompositeLit); !isLit {
+				return e.retVals(rs, []kind{-1})
+			}
+		}
 		if len(rs) == 1 {
 			if cl, ok := rs[0].(*ast.CompositeLit); ok {
 				var fields []ast.Expr
@@ -342,6 +388,13 @@ func (e *env) declare(name string, k kind) {
 	e.name[name] = "g_" + name
 }
 
+func (e *env) tmpLet(name string, v val, ind string) string {
+	if v.pure {
+		return fmt.Sprintf("%slet %s := %s\n", ind, name, v.code)
+	}
+	return fmt.Sprintf("%slet %s ← %s\n", ind, name, v.m())
+}
+
 func (e *env) letStmt(name string, v val, rest string, ind string) string {
 	if v.pure {
 		return fmt.Sprintf("%slet %s := %s\n%s", ind, e.name[name], v.code, rest)
@@ -359,19 +412,48 @@ func (e *env) stmts(list []ast.Stmt, ind string, cont func(ind string) string) s
 	switch t := list[0].(type) {
 	case *ast.ReturnStmt:
 		return ind + e.ret(t.Results, e.want)
+	case *ast.BranchStmt:
+		if t.Tok == token.CONTINUE && e.loopContinue != nil && t.Label == nil {
+			return e.loopContinue(ind)
+		}
+		die(t.Pos(), "unsupported branch statement")
 	case *ast.AssignStmt:
-		if len(t.Lhs) == 1 && len(t.Rhs) == 1 {
-			id, ok := t.Lhs[0].(*ast.Ident)
-			if !ok {
-				die(t.Pos(), "assignment to a non-variable")
+		lname := func(x ast.Expr) string {
+			if id, ok := x.(*ast.Ident); ok {
+				return id.Name
 			}
+			if sel, ok := x.(*ast.SelectorExpr); ok {
+				return exprName(sel.X) + "." + sel.Sel.Name
+			}
+			die(x.Pos(), "assignment to a non-variable")
+			return ""
+		}
+		if len(t.Lhs) == 1 && len(t.Rhs) == 1 {
+			name := lname(t.Lhs[0])
 			v := e.expr(t.Rhs[0])
 			if t.Tok == token.DEFINE {
-				e.declare(id.Name, v.k)
-			} else if _, ok := e.vars[id.Name]; !ok {
+				e.declare(name, v.k)
+			} else if _, ok := e.vars[name]; !ok {
 				die(t.Pos(), "assignment to unknown variable")
 			}
-			return e.letStmt(id.Name, v, rest(ind), ind)
+			return e.letStmt(name, v, rest(ind), ind)
+		}
+		// a, b := x, y  /  a, b = x, y : all right-hand sides are evaluated first
+		if len(t.Lhs) == len(t.Rhs) && len(t.Lhs) == 2 {
+			v0, v1 := e.expr(t.Rhs[0]), e.expr(t.Rhs[1])
+			t0, t1 := fresh(), fresh()
+			lines := e.tmpLet(t0, v0, ind) + e.tmpLet(t1, v1, ind)
+			for i, l := range t.Lhs {
+				name := lname(l)
+				k := []kind{v0.k, v1.k}[i]
+				if t.Tok == token.DEFINE {
+					e.declare(name, k)
+				} else if _, ok := e.vars[name]; !ok {
+					die(t.Pos(), "assignment to unknown variable")
+				}
+				lines += fmt.Sprintf("%slet %s := %s\n", ind, e.name[name], []string{t0, t1}[i])
+			}
+			return lines + rest(ind)
 		}
 		// x, err := NewOID(w) / strconv.ParseUint(w, 10, bits): the error is the monad's
 		if len(t.Lhs) == 2 && len(t.Rhs) == 1 && exprName(t.Lhs[1]) == "err" {
@@ -446,7 +528,11 @@ func (e *env) stmts(list []ast.Stmt, ind string, cont func(ind string) string) s
 		return fmt.Sprintf("%slet %s := %s%s\n%s", ind, e.name[id.Name], e.name[id.Name], op, rest(ind))
 	case *ast.IfStmt:
 		if t.Init != nil {
-			die(t.Pos(), "if with init")
+			// `if x := e; cond { … }`: the init statement first (its variable stays visible afterwards
+			// in the translation, which is harmless: Go would reject a later use)
+			noInit := *t
+			noInit.Init = nil
+			return e.stmts(append([]ast.Stmt{t.Init, &noInit}, list[1:]...), ind, cont)
 		}
 		c := e.expr(t.Cond)
 		thenB := e.stmts(t.Body.List, ind+"  ", rest)
@@ -524,6 +610,9 @@ func (e *env) cond(c val, thenB, elseB, ind string) string {
 // fuel (len(s)+1 suffices) that carries i and every mutable local; the statements after the loop
 // are its exit branch.
 func (e *env) forLoop(t *ast.ForStmt, ind string, rest func(string) string) string {
+	if t.Init == nil && t.Post == nil {
+		return e.whileLoop(t, ind, rest)
+	}
 	init, ok := t.Init.(*ast.AssignStmt)
 	if !ok || init.Tok != token.DEFINE || len(init.Lhs) != 1 {
 		die(t.Pos(), "for: init")
@@ -607,6 +696,63 @@ func srcCond(x ast.Expr) string {
 	return ""
 }
 
+// whileLoop handles `for len(x) > 0 { body }` where the body shortens x: recursion on fuel
+// (len(x)+1 at entry; that it suffices is part of the equality theorem with the model).
+func (e *env) whileLoop(t *ast.ForStmt, ind string, rest func(string) string) string {
+	cond, ok := t.Cond.(*ast.BinaryExpr)
+	if !ok || cond.Op != token.GTR {
+		die(t.Pos(), "for: condition is not len(x) > 0")
+	}
+	lc, ok := cond.X.(*ast.CallExpr)
+	if !ok || exprName(lc.Fun) != "len" || len(lc.Args) != 1 || srcLit(cond.Y) != "0" {
+		die(t.Pos(), "for: condition is not len(x) > 0")
+	}
+	mv := exprName(lc.Args[0])
+	if e.vars[mv] != kStr {
+		die(t.Pos(), "for: measure is not a byte string variable")
+	}
+	e.nloops++
+	lname := fmt.Sprintf("%s_loop%d", e.fname, e.nloops)
+	carried := append([]string{}, e.locals...)
+	var binders, pats []string
+	for _, v := range carried {
+		binders = append(binders, leanType(e.vars[v]))
+		pats = append(pats, e.name[v])
+	}
+	sub := &env{vars: copyMap(e.vars), name: copyMapS(e.name), locals: append([]string{}, e.locals...), params: e.params, fname: e.fname, want: e.want, aux: e.aux, nloops: e.nloops}
+	recur := func(i string) string {
+		var as []string
+		for _, v := range carried {
+			as = append(as, sub.name[v])
+		}
+		return fmt.Sprintf("%s%s %s fuel %s", i, lname, strings.Join(paramNames(e.params), " "), strings.Join(as, " "))
+	}
+	sub.loopContinue = recur
+	body := sub.stmts(t.Body.List, "      ", recur)
+	sub2 := &env{vars: copyMap(e.vars), name: copyMapS(e.name), locals: append([]string{}, e.locals...), params: e.params, fname: e.fname, want: e.want, aux: e.aux, nloops: sub.nloops}
+	exit := sub2.stmts(nil, "      ", rest)
+	var wantT []string
+	for _, k := range e.want {
+		if k == kErr {
+			continue
+		}
+		if k == kStruct {
+			wantT = append(wantT, resultOverride[e.fname])
+			continue
+		}
+		wantT = append(wantT, leanType(k))
+	}
+	fmt.Fprintf(e.aux, "def %s %s : Nat → %s → Res (%s)\n  | 0, %s => .panic \"loop-fuel\"\n  | fuel + 1, %s =>\n    if (%s.length : Int) > 0 then do\n%s\n    else do\n%s\n\n",
+		lname, strings.Join(e.params, " "), strings.Join(binders, " → "), strings.Join(wantT, " × "),
+		strings.Join(underscores(len(pats)), ", "), strings.Join(pats, ", "), e.name[mv], body, exit)
+	e.nloops = sub2.nloops
+	var callArgs []string
+	for _, v := range carried {
+		callArgs = append(callArgs, e.name[v])
+	}
+	return fmt.Sprintf("%s%s %s (%s.length + 1) %s", ind, lname, strings.Join(paramNames(e.params), " "), e.name[mv], strings.Join(callArgs, " "))
+}
+
 func underscores(n int) []string {
 	var r []string
 	for i := 0; i < n; i++ {
@@ -657,7 +803,7 @@ func kindOfType(x ast.Expr) kind {
 }
 
 func leanType(k kind) string {
-	return map[kind]string{kBool: "Bool", kInt: "Int", kStr: "Bytes", kByte: "UInt8", kStrs: "List Bytes", kU64: "Nat", kOIDVal: "Bytes"}[k]
+	return map[kind]string{kBool: "Bool", kInt: "Int", kStr: "Bytes", kByte: "UInt8", kStrs: "List Bytes", kU64: "Nat", kOIDVal: "Bytes", kPair: "(Bytes × Bytes)", kPairs: "List (Bytes × Bytes)"}[k]
 }
 
 // resultOverride: the Lean type of the value part of a (struct, error) result
@@ -774,6 +920,52 @@ func translate(repo, rel, recvType, fn, leanName string, out *strings.Builder) {
 	os.Exit(1)
 }
 
+// translateGetConfigLoop translates the record loop of (*Repository).GetConfig and the return that
+// follows it: `out` (the listing `git config --list -z` printed) and `prefix` are parameters, the
+// accumulated `config.Entries` is the result.
+func translateGetConfigLoop(repo string, out *strings.Builder) {
+	rel := "git/gitconfig.go"
+	f, err := parser.ParseFile(fset, filepath.Join(repo, rel), nil, 0)
+	if err != nil {
+		fmt.Fprintln(os.Stderr, err)
+		os.Exit(1)
+	}
+	for _, d := range f.Decls {
+		fd, ok := d.(*ast.FuncDecl)
+		if !ok || fd.Name.Name != "GetConfig" {
+			continue
+		}
+		start := -1
+		for i, st := range fd.Body.List {
+			if _, ok := st.(*ast.ForStmt); ok {
+				start = i
+				break
+			}
+		}
+		if start < 0 {
+			die(fd.Pos(), "GetConfig: no loop")
+		}
+		e := &env{vars: map[string]kind{}, name: map[string]string{}}
+		params := []string{"(g_prefix : Bytes)"}
+		e.vars["prefix"], e.name["prefix"] = kStr, "g_prefix"
+		e.declare("out", kStr)
+		e.vars["config.Entries"], e.name["config.Entries"] = kPairs, "g_config_Entries"
+		e.locals = append(e.locals, "config.Entries")
+		var aux strings.Builder
+		resultOverride["GetConfig_records"] = "List (Bytes × Bytes)"
+		e.params, e.fname, e.want, e.aux = params, "GetConfig_records", []kind{kStruct, kErr}, &aux
+		body := e.stmts(fd.Body.List[start:], "  ", func(ind string) string {
+			die(fd.End(), "function falls off its end")
+			return ""
+		})
+		out.WriteString(aux.String())
+		fmt.Fprintf(out, "/-- %s: GetConfig, from the record loop on (`out` = what `git config --list -z` printed) -/\ndef GetConfig_records (g_prefix : Bytes) (g_out : Bytes) : Res (List (Bytes × Bytes)) := do\n  let g_config_Entries : List (Bytes × Bytes) := []\n%s\n\n", rel, body)
+		return
+	}
+	fmt.Fprintln(os.Stderr, "gostr2lean: GetConfig not found")
+	os.Exit(1)
+}
+
 func main() {
 	if len(os.Args) != 3 {
 		fmt.Fprintln(os.Stderr, "usage: gostr2lean <repo> <outdir>")
@@ -790,6 +982,7 @@ func main() {
 	resultOverride["ParseReference"] = "Bytes × Bytes × Nat × Bytes" // Refname, ObjectType, ObjectSize, OID
 	translate(repo, "git/batch_header.go", "", "ParseBatchHeader", "ParseBatchHeader", &out)
 	translate(repo, "git/reference.go", "", "ParseReference", "ParseReference", &out)
+	translateGetConfigLoop(repo, &out)
 	out.WriteString("end Gen.Strs\n")
 	os.MkdirAll(outdir, 0o755)
 	if err := os.WriteFile(filepath.Join(outdir, "Strs.lean"), []byte(out.String()), 0o644); err != nil {
